@@ -49,8 +49,20 @@ func SetYield(f func(string)) {
 	yield.Store(&f)
 }
 
+var held atomic.Int64
+
+// Locked / Unlocked bracket the engine's own mutex regions (inserted after every
+// Lock / RLock and every Unlock / RUnlock of the instrumented packages).
+func Locked()   { held.Add(1) }
+func Unlocked() { held.Add(-1) }
+
 // Yield is a scheduling point inserted before an access to shared in-memory state.
+// It does nothing while any instrumented mutex is held: a goroutine must never be
+// parked while it, or a caller of it, holds a mutex.
 func Yield(where string) {
+	if held.Load() > 0 {
+		return
+	}
 	if f := yield.Load(); f != nil {
 		(*f)(where)
 	}
@@ -253,6 +265,26 @@ func rewriteFile(name string, src []byte, repo string, rep *Report) ([]byte, boo
 				rep.Yields = append(rep.Yields, where)
 			})
 		}
+		// bracket mutex regions
+		ast.Inspect(f, func(n ast.Node) bool {
+			switch v := n.(type) {
+			case *ast.ExprStmt:
+				if name, ok := lockCall(v.X); ok {
+					e := off(v.End())
+					if name == "Lock" || name == "RLock" {
+						edits = append(edits, edit{e, e, "; verifhook.Locked()"})
+					} else {
+						edits = append(edits, edit{e, e, "; verifhook.Unlocked()"})
+					}
+				}
+			case *ast.DeferStmt:
+				if name, ok := lockCall(v.Call); ok && (name == "Unlock" || name == "RUnlock") {
+					call := string(src[off(v.Call.Pos()):off(v.Call.End())])
+					edits = append(edits, edit{off(v.Pos()), off(v.End()), "defer func() { " + call + "; verifhook.Unlocked() }()"})
+				}
+			}
+			return true
+		})
 	}
 	if len(edits) == 0 {
 		return nil, false, nil
@@ -394,4 +426,21 @@ func yieldBlock(list []ast.Stmt, locked *bool, emit func(ast.Stmt)) {
 			return true
 		})
 	}
+}
+
+// lockCall: x.Lock() / x.RLock() / x.Unlock() / x.RUnlock() without arguments.
+func lockCall(x ast.Expr) (string, bool) {
+	c, ok := x.(*ast.CallExpr)
+	if !ok || len(c.Args) != 0 {
+		return "", false
+	}
+	se, ok := c.Fun.(*ast.SelectorExpr)
+	if !ok {
+		return "", false
+	}
+	switch se.Sel.Name {
+	case "Lock", "RLock", "Unlock", "RUnlock":
+		return se.Sel.Name, true
+	}
+	return "", false
 }
